@@ -34,8 +34,34 @@ def main():
         good = (found == [] if want is None else any(want in f or f.replace("step:", "") == want for f in found))
         ok &= good
         print(("ok   " if good else "FAIL ") + f"{label:50s} -> {found or 'accepted'}")
+    ok &= other_bindings()
     print("binding demonstrated" if ok else "BINDING NOT DEMONSTRATED")
     return 0 if ok else 1
+
+
+def other_bindings():
+    """the same for the smaller trace / replay bindings: Trace_Compile (compiler alone), Trace_Stream (per-source options), the scanner and command-line replays"""
+    import astlevel as A, stream as S, engines as E
+    ok = True
+    items = A.record([("base", DOC, "en")], E.known_finding_input)[:2]
+    broken = copy.deepcopy(items[1]); broken["pickles"][0]["tags"][0]["name"] = broken["pickles"][0]["tags"][0]["name"][:-1]; broken["name"] = "tag name shortened"
+    late = copy.deepcopy(items[1]); late["nid_after"] += 1; late["name"] = "id counter after compile +1"
+    v, _ = A.validate([items[0], broken, late])
+    for tid, want in ((1, []), (2, ["operational", "c08"]), (3, ["counter"])):
+        got = [k for k in ("operational", "counter", "c06", "c07", "c08", "c09", "c10") if not v[tid][k]]
+        good = got == want
+        ok &= good
+        print(("ok   " if good else "FAIL ") + f"{'Trace_Compile: ' + v[tid]['name']:50s} -> {got or 'accepted'}")
+    srcs = [("a.feature", "Feature: a\n  Scenario: s\n    Given x\n"), ("b.feature", "Feature: b\n  Scenario: s\n    Given y\n")]
+    good_run, _ = S.record_run("options switched", srcs, [(True, True, True), (False, False, True)])
+    lying = copy.deepcopy(good_run); lying["optseq"][1] = dict(source=True, ast=False, pickles=True); lying["name"] = "recorded options of the second source falsified"
+    mism, done, _ = S.validate([good_run, lying], refshapes=S.reference_shapes())
+    for rid, want in ((1, None), (2, "envelopes")):
+        got = mism.get(rid, {}).get("clause")
+        good = got == want
+        ok &= good
+        print(("ok   " if good else "FAIL ") + f"{'Trace_Stream: ' + [good_run, lying][rid - 1]['name']:50s} -> {got or 'accepted'}")
+    return ok
 
 
 if __name__ == "__main__":
